@@ -1,7 +1,7 @@
 """Property id -> check function."""
 import json
 
-from . import props_value, props_obs, props_msg, props_decl, props_surface
+from . import props_value, props_obs, props_msg, props_decl, props_surface, props_arb
 
 CHECKS = {
     "C01": props_value.check_C01,
@@ -11,10 +11,12 @@ CHECKS = {
     "C06": props_obs.check_C06,
     "C07": props_value.check_C07,
     "C08": props_decl.check_C08,
+    "C09": props_arb.check_C09,
     "C10": props_obs.check_C10,
     "C11": props_obs.check_C11,
     "C12": props_obs.check_C12,
     "C13": props_obs.check_C13,
+    "C14": props_arb.check_C14,
     "C15": props_decl.check_C15,
     "C16": props_msg.check_C16,
 }
